@@ -403,7 +403,10 @@ fn rotate_check<F: WithSmallOrderMulGroup<3>>(fname: &str, case: &RotCase) -> Ca
     let mut rng = SplitMix(case.seed);
     let a: Vec<F> = (0..n).map(|_| random_scalar(&mut rng)).collect();
     let x: F = random_scalar(&mut rng);
-    let rots: Vec<i32> = (-3..=3).filter(|r: &i32| r.unsigned_abs() as usize <= n).collect();
+    // every rotation -3..3 on every domain (beyond n for k = 1), and a few
+    // larger ones: positions are taken modulo n
+    let mut rots: Vec<i32> = (-3..=3).collect();
+    rots.extend([n as i32, -(n as i32), n as i32 + 1, -(n as i32) - 1, 2 * n as i32 + 3, (case.big % 4096)]);
     let big_rots: Vec<i32> = vec![n as i32, -(n as i32), n as i32 + 1, -(n as i32) - 1, case.big, i32::MAX, i32::MIN + 1, i32::MIN];
     type Out<F> = (F, Vec<F>, Vec<(Vec<F>, Vec<F>, F)>, Vec<F>);
     let out: Out<F> = in_pool_catch(t, || {
@@ -424,7 +427,7 @@ fn rotate_check<F: WithSmallOrderMulGroup<3>>(fname: &str, case: &RotCase) -> Ca
     let (w, l, per, big) = out;
     ensure!(Rotation::cur() == Rotation(0) && Rotation::next() == Rotation(1) && Rotation::prev() == Rotation(-1), "Rotation:constants", "cur/next/prev");
     for (&r, (rl, rc, rx)) in rots.iter().zip(per.iter()) {
-        let wr = omega_pow(w, r as i64);
+        let wr = if r.abs() <= 3 { omega_pow(w, r as i64) } else { w.pow_vartime([(r as i64).rem_euclid(n as i64) as u64]) };
         ensure!(*rx == x * wr, "EvaluationDomain:rotate_omega", "{fname} k={k} rotation {r}: not x * omega^{r}");
         for i in 0..n {
             let src = (i as i64 + r as i64).rem_euclid(n as i64) as usize;
@@ -437,7 +440,7 @@ fn rotate_check<F: WithSmallOrderMulGroup<3>>(fname: &str, case: &RotCase) -> Ca
         let e = (r as i64).rem_euclid(n as i64) as u64;
         ensure!(*rx == x * w.pow_vartime([e]), "EvaluationDomain:rotate_omega", "{fname} k={k} rotation {r}: not x * omega^({r} mod n)");
     }
-    Ok(Verdict::nontrivial(format!("k={k}")).with(format!("threads={t}")))
+    Ok(Verdict::nontrivial(format!("k={k}")).with(format!("threads={t}")).with(if n < 3 { "rotations -3..3 exceed n" } else { "rotations -3..3 within n" }))
 }
 
 #[derive(Clone, Debug, Serialize, Deserialize)]
@@ -1181,10 +1184,10 @@ fn field_suite<F: WithSmallOrderMulGroup<3> + Ord>(p: &Prop, fname: &'static str
         || dom_strategy(max_k),
         |c| conv_check::<F>(fname, c, full),
     );
-    let max_poly_len = p.tier.pick(2048, 8192);
+    let max_poly_len = p.tier.pick(2048, 4096);
     p.sub(
         &format!("domain.vanishing.{fname}"),
-        "k=1..10 x j=1..9 x pools: divide_by_vanishing_poly on arbitrary extended values, multiplied back pointwise by (zeta omega_ext^i)^n - 1; when the extended domain is larger than n (and <= 2048 points; thorough 8192): q (X^n-1) evaluated naively on the coset, divided, interpolated back, equals q; non-trivial = input not the fixed ramp",
+        "k=1..10 x j=1..9 x pools: divide_by_vanishing_poly on arbitrary extended values, multiplied back pointwise by (zeta omega_ext^i)^n - 1; when the extended domain is larger than n (and <= 2048 points; thorough 4096): q (X^n-1) evaluated naively on the coset, divided, interpolated back, equals q; non-trivial = input not the fixed ramp",
         p.tier.pick(240, 8_000) / scale,
         16,
         || dom_strategy(max_k),
@@ -1192,7 +1195,7 @@ fn field_suite<F: WithSmallOrderMulGroup<3> + Ord>(p: &Prop, fname: &'static str
     );
     p.sub(
         &format!("domain.rotate.{fname}"),
-        "k=1..10 x pools x all rotations -3..3 with |rotation| <= n: Polynomial::rotate value-wise (index + rotation mod n) and at the polynomial level p(omega^r X) at a random point; rotate_omega for -3..3 (naive repeated multiplication) and for +-n, +-(n+1), random, i32::MAX, i32::MIN(+1) (exponent reduced mod n)",
+        "k=1..10 x pools x all rotations -3..3 (beyond n for k=1) and +-n, +-(n+1), 2n+3, random up to +-4095: Polynomial::rotate value-wise (index + rotation mod n) and at the polynomial level p(omega^r X) at a random point; rotate_omega for the same rotations (naive repeated multiplication for -3..3) and for i32::MAX, i32::MIN(+1) (exponent reduced mod n)",
         p.tier.pick(300, 10_000) / scale,
         16,
         || {
@@ -1312,7 +1315,7 @@ pub fn run(p: &Prop) {
     }
     p.enumerate(
         "domain.rotate.wrap",
-        "Polynomial::rotate with |rotation| > n on the smallest domains (k=1: rotations +-3 of the quantifier; k=1,2: up to +-7): positions are taken modulo n, as rotate_omega does",
+        "REGRESSION (fixed: Polynomial::rotate panicked for |rotation| > n): Polynomial::rotate with |rotation| > n on the smallest domains (k=1: rotations +-3 of the quantifier; k=1,2: up to +-7): positions are taken modulo n, as rotate_omega does",
         items,
         2,
         false,
@@ -1321,11 +1324,11 @@ pub fn run(p: &Prop) {
 
     let bls = KzgCtx::<Bls12>::new("bls12_381");
     let bn = KzgCtx::<bn256::Bn256>::new("bn256");
-    kzg_suite(p, &bls, p.tier.pick(7, 10), p.tier.pick(400, 12_000));
-    kzg_suite(p, &bn, p.tier.pick(6, 9), p.tier.pick(200, 6_000));
+    kzg_suite(p, &bls, p.tier.pick(7, 10), p.tier.pick(400, 8_000));
+    kzg_suite(p, &bn, p.tier.pick(6, 9), p.tier.pick(200, 4_000));
     p.enumerate(
         "kzg.msm.identity-base-large",
-        "msm_specific on BN254 G1 (the msm_best fallback) with one identity base among n generators, n = 8103 and 8104",
+        "REGRESSION (fixed: msm_best identity-base panic, reached through msm_specific): msm_specific on BN254 G1 (the msm_best fallback) with one identity base among n distinct bases with random scalars, n = 8103 and 8104",
         vec![8103usize, 8104],
         2,
         false,
